@@ -50,6 +50,8 @@ def strings(maxlen):
 def leaves():
     ints = [0, -1, 42, 9223372036854775807, -9223372036854775808]
     out = [I(n) for n in ints] + [F("1.5"), F("-0.25"), F("100.0")]
+    # floats far from 1: the printed form must stay positional (Garden has no exponent syntax)
+    out += [F("1000000000000000000000.0"), F("10000000000000000.0"), F("0.00001"), F("0.000025"), F("123456789.125")]
     out += [S(s) for s in ["", "a", '"', "\\", "a\\", "\n", "x\ty", "\u00e9\U0001F600", "{x}", '\\"', 'a"b', "\\n"]]
     out += [E("True"), E("False"), E("Unit"), E("None")]
     return out
@@ -67,7 +69,9 @@ def containers(vals, small):
 
 def pool(tier):
     lv = leaves()
-    small = [(lv[0], lv[1]), (lv[8], lv[9]), (lv[5], lv[2]), (lv[20], lv[23]), (lv[10], lv[11])]
+    strs = [v for v in lv if v["k"] == "Str"]
+    enums = [v for v in lv if v["k"] == "Enum"]
+    small = [(lv[0], lv[1]), (strs[0], strs[1]), (lv[5], lv[2]), (enums[0], enums[3]), (strs[2], strs[3])]
     c1 = containers(lv, small)
     deep_src = c1[:: (7 if tier == "quick" else 2)]
     c2 = containers(deep_src, [(c1[0], c1[1]), (c1[6], c1[13])])
